@@ -1,13 +1,66 @@
 /-
 C02  Reverse byte search returns exactly the last matching position.
+
+Only statements, one-line proofs from the master lemmas, non-vacuity examples and
+`#print axioms`.
+
+How the clauses of the property are covered:
+
+  clause                                                   theorems
+  -------------------------------------------------------  -------------------------------------
+  what "last match" / "none iff there is none" mean        `spec_some_iff`, `spec_none_iff`
+  vector routine, any lawful vector type, window >= 1 vec  `generic_rfind`
+    ... instances SSE2 / AVX2 / NEON / wasm simd128        `avx2_three`, `sse2_rfind`,
+                                                           `avx2_rfind`, `neon_rfind`,
+                                                           `simd128_rfind`
+  SWAR (`arch::all`), every `start`/`end`                  `swar_one`, `swar_multi`, `swar_two`,
+                                                           `swar_three`
+  raw-pointer form `rfind_raw` of EVERY backend, every
+    window (short, empty, reversed) -> last match           `raw_every_backend`
+    returned pointer inside `[start, end)`, last,
+    `none` iff absent (pointwise reading)                   `raw_pointwise`
+    `None` when `start >= end` (no precondition)            `raw_none_when_start_ge_end`
+  slice form `rfind` of every backend's searcher            `slice_every_backend`
+  `memrchr`/`memrchr2`/`memrchr3`, every configuration      `memrchr_last`, `memrchr_pointwise`
+  returned index `< haystack.len()`                         `index_lt_len`
+
+The dispatch facts (the public routine runs the backend `select` picks; it is an available one)
+are stated once for both directions in `Props/C01.lean` (`dispatch_runs_selected` has a `rev`
+argument, `selected_is_available`).
+
+In every theorem `= .ok v c'` means: the run returns normally (no out-of-bounds or misaligned
+load, no pointer arithmetic leaving the allocation, no overflow, no failed debug assertion)
+and the returned value is `v`.
 -/
 import MemchrModel.Proofs.MemchrGeneric
 import MemchrModel.Proofs.Sensible
+import MemchrModel.Proofs.Neon
+import MemchrModel.Proofs.Swar
+import MemchrModel.Proofs.MemchrApi
+import MemchrModel.Proofs.PropsBridge2
 import MemchrModel.Generated.Consts
 
 namespace Memchr.Props.C02
 
 open Memchr
+
+/-! ### the specification -/
+
+/-- Meaning of the specification function: `Spec.lastIdx p l = some i` says exactly that `i` is
+an index of `l`, the byte there satisfies `p`, and no larger index does ("the largest index
+whose byte equals one of the needles"). -/
+theorem spec_some_iff {p : UInt8 → Bool} {l : List UInt8} {i : Nat} :
+    Spec.lastIdx p l = some i ↔
+      ∃ h : i < l.length, p l[i] = true ∧ ∀ j (hj : j < l.length), i < j → p l[j] = false :=
+  Spec.lastIdx_eq_some_iff
+
+/-- Meaning of the specification function: it is `none` exactly when no byte satisfies `p`
+("`None` exactly when there is none"). -/
+theorem spec_none_iff {p : UInt8 → Bool} {l : List UInt8} :
+    Spec.lastIdx p l = none ↔ ∀ x ∈ l, p x = false :=
+  Spec.lastIdx_eq_none_iff
+
+/-! ### the generic vector routine and its instances -/
 
 /-- The generic vector `rfind_raw` of `One`/`Two`/`Three` on ANY lawful vector type returns the
 address of the last byte of `[start, end)` that equals a needle, `none` iff there is none,
@@ -20,6 +73,8 @@ theorem generic_rfind (V : VecImpl) (L : Lawful V) (ns : Needles) (u : Nat) (hu 
       .ok ((Spec.lastIdx ns.confirm (m.window start (end_ - start))).map (start + ·)) c' :=
   Generic.rfindRaw_correct V L ns u hu m start end_ c hs he hlen
 
+/-- the unroll factors in the source are positive (re-checked against the regenerated
+constants) -/
 theorem unroll_pos : 0 < Generated.oneUnroll ∧ 0 < Generated.twoUnroll ∧ 0 < Generated.threeUnroll := by
   decide
 
@@ -31,11 +86,181 @@ theorem avx2_three (n1 n2 n3 : UInt8) (m : Mem) (start end_ : Nat) (c : Ctr)
   generic_rfind Sensible.avx2 Sensible.lawful_avx2 ⟨n1, [n2, n3]⟩ Generated.threeUnroll unroll_pos.2.2
     m start end_ c hs he hlen
 
+/-- hypotheses are satisfiable: an 80-byte region at an odd base address, both `start` and `end`
+unaligned -/
 example : ∃ (m : Mem) (start end_ : Nat), m.base ≤ start ∧ end_ ≤ m.base + m.bytes.size ∧ start + 32 ≤ end_ :=
   ⟨⟨0, 1001, Array.replicate 80 0⟩, 1003, 1077, by decide, by simp, by decide⟩
 
+/-- SSE2 instance (`__m128i`, 16 lanes) of `generic_rfind`: `One`, `Two` and `Three`, any unroll
+factor, windows of at least 16 bytes. -/
+theorem sse2_rfind (ns : Needles) (u : Nat) (hu : 0 < u) (m : Mem) (start end_ : Nat) (c : Ctr)
+    (hs : m.base ≤ start) (he : end_ ≤ m.base + m.bytes.size) (hlen : start + 16 ≤ end_) :
+    ∃ c', Generic.rfindRaw Sensible.sse2 ns u hu m start end_ c =
+      .ok ((Spec.lastIdx ns.confirm (m.window start (end_ - start))).map (start + ·)) c' :=
+  generic_rfind Sensible.sse2 Sensible.lawful_sse2 ns u hu m start end_ c hs he hlen
+
+/-- AVX2 instance (`__m256i`, 32 lanes) of `generic_rfind`: windows of at least 32 bytes. -/
+theorem avx2_rfind (ns : Needles) (u : Nat) (hu : 0 < u) (m : Mem) (start end_ : Nat) (c : Ctr)
+    (hs : m.base ≤ start) (he : end_ ≤ m.base + m.bytes.size) (hlen : start + 32 ≤ end_) :
+    ∃ c', Generic.rfindRaw Sensible.avx2 ns u hu m start end_ c =
+      .ok ((Spec.lastIdx ns.confirm (m.window start (end_ - start))).map (start + ·)) c' :=
+  generic_rfind Sensible.avx2 Sensible.lawful_avx2 ns u hu m start end_ c hs he hlen
+
+/-- NEON instance (`uint8x16_t`; 64-bit nibble mask, lane `i` is bit `4i + 3`;
+`last_offset = 16 - (leading_zeros >> 2) - 1`, both subtractions checked) of `generic_rfind`: `Neon.lawful` is the proof that
+the NEON mask operations satisfy the laws the generic routine relies on. Windows of at least 16
+bytes. -/
+theorem neon_rfind (ns : Needles) (u : Nat) (hu : 0 < u) (m : Mem) (start end_ : Nat) (c : Ctr)
+    (hs : m.base ≤ start) (he : end_ ≤ m.base + m.bytes.size) (hlen : start + 16 ≤ end_) :
+    ∃ c', Generic.rfindRaw Neon.impl ns u hu m start end_ c =
+      .ok ((Spec.lastIdx ns.confirm (m.window start (end_ - start))).map (start + ·)) c' :=
+  generic_rfind Neon.impl Neon.lawful ns u hu m start end_ c hs he hlen
+
+/-- wasm simd128 instance (`v128`, 16 lanes) of `generic_rfind`. Windows of at least 16 bytes. -/
+theorem simd128_rfind (ns : Needles) (u : Nat) (hu : 0 < u) (m : Mem) (start end_ : Nat) (c : Ctr)
+    (hs : m.base ≤ start) (he : end_ ≤ m.base + m.bytes.size) (hlen : start + 16 ≤ end_) :
+    ∃ c', Generic.rfindRaw Sensible.simd128 ns u hu m start end_ c =
+      .ok ((Spec.lastIdx ns.confirm (m.window start (end_ - start))).map (start + ·)) c' :=
+  generic_rfind Sensible.simd128 Sensible.lawful_simd128 ns u hu m start end_ c hs he hlen
+
+/-- hypotheses of the 16-byte instances are satisfiable: a 40-byte region at an odd base -/
+example : ∃ (m : Mem) (start end_ : Nat), m.base ≤ start ∧ end_ ≤ m.base + m.bytes.size ∧ start + 16 ≤ end_ :=
+  ⟨⟨0, 1001, Array.replicate 40 0⟩, 1003, 1041, by decide, by simp, by decide⟩
+
+/-! ### SWAR (`src/arch/all/memchr.rs`): every `start` / `end` -/
+
+/-- SWAR `One::rfind_raw` for EVERY pair `start`, `end`: when `start < end` the window must lie
+inside the region (any length >= 1, any alignment of `end`, including windows shorter than one
+`usize` word); when `start >= end` there is no precondition and the result is `none`. Last
+match, `none` iff absent, no fault. -/
+theorem swar_one (n1 : UInt8) (m : Mem) (start end_ : Nat) (c : Ctr)
+    (hb : start < end_ → m.base ≤ start ∧ end_ ≤ m.base + m.bytes.size) :
+    ∃ c', Swar.One.rfindRaw n1 m start end_ c =
+      .ok ((Spec.lastIdx (· == n1) (m.window start (end_ - start))).map (start + ·)) c' :=
+  Swar.One.rfindRaw_correct_eq n1 m start end_ c hb
+
+/-- SWAR `Two::rfind_raw` / `Three::rfind_raw` (one shared body) for EVERY pair `start`, `end`,
+as in `swar_one`. -/
+theorem swar_multi (ns : Needles) (m : Mem) (start end_ : Nat) (c : Ctr)
+    (hb : start < end_ → m.base ≤ start ∧ end_ ≤ m.base + m.bytes.size) :
+    ∃ c', Swar.Multi.rfindRaw ns m start end_ c =
+      .ok ((Spec.lastIdx ns.confirm (m.window start (end_ - start))).map (start + ·)) c' :=
+  Swar.Multi.rfindRaw_correct ns m start end_ c hb
+
+/-- SWAR `Two::rfind_raw` with the predicate written out (`n1 = n2` allowed). -/
+theorem swar_two (n1 n2 : UInt8) (m : Mem) (start end_ : Nat) (c : Ctr)
+    (hb : start < end_ → m.base ≤ start ∧ end_ ≤ m.base + m.bytes.size) :
+    ∃ c', Swar.Multi.rfindRaw ⟨n1, [n2]⟩ m start end_ c =
+      .ok ((Spec.lastIdx (fun b => b == n1 || b == n2)
+        (m.window start (end_ - start))).map (start + ·)) c' :=
+  Swar.Two.rfindRaw_correct n1 n2 m start end_ c hb
+
+/-- SWAR `Three::rfind_raw` with the predicate written out. -/
+theorem swar_three (n1 n2 n3 : UInt8) (m : Mem) (start end_ : Nat) (c : Ctr)
+    (hb : start < end_ → m.base ≤ start ∧ end_ ≤ m.base + m.bytes.size) :
+    ∃ c', Swar.Multi.rfindRaw ⟨n1, [n2, n3]⟩ m start end_ c =
+      .ok ((Spec.lastIdx (fun b => b == n1 || b == n2 || b == n3)
+        (m.window start (end_ - start))).map (start + ·)) c' :=
+  Swar.Three.rfindRaw_correct n1 n2 n3 m start end_ c hb
+
+/-- the SWAR precondition is satisfiable by a non-trivial input (a 20-byte region at the odd
+base address 3, window `[4, 22)`) -/
+example : ∃ (m : Mem) (start end_ : Nat), start < end_ ∧
+    (start < end_ → m.base ≤ start ∧ end_ ≤ m.base + m.bytes.size) :=
+  ⟨⟨0, 3, Array.replicate 20 7⟩, 4, 22, by decide, fun _ => ⟨by decide, by simp⟩⟩
+
+/-! ### raw-pointer form, every backend -/
+
+/-- Raw-pointer form, EVERY backend (SWAR, SSE2, AVX2, NEON, wasm simd128; `rawFind b ns true`
+is `<backend>::memchr::{One,Two,Three}::rfind_raw` including the wrapper's short-haystack
+routing), for ALL `start`, `end` with `[start, end)` inside the region — including
+`start >= end` (value `none`) and windows shorter than a vector: the result is the address of
+the last needle byte, `none` iff there is none. -/
+theorem raw_every_backend (b : Api.Backend) (ns : Needles) (m : Mem) (start end_ : Nat) (c : Ctr)
+    (hs : m.base ≤ start) (he : end_ ≤ m.base + m.bytes.size) :
+    ∃ c', Api.rawFind b ns true m start end_ c =
+      .ok ((Spec.lastIdx ns.confirm (m.window start (end_ - start))).map (start + ·)) c' :=
+  Api.C02_raw b ns m start end_ c hs he
+
+/-- The same read pointwise, with no specification function: for every backend `rfind_raw`
+returns normally with some `r` such that
+* `r = none` exactly when no address of `[start, end)` holds a needle byte;
+* a returned pointer `a` lies inside `[start, end)`, holds a needle byte, and no later address
+  of the window does. -/
+theorem raw_pointwise (b : Api.Backend) (ns : Needles) (m : Mem) (start end_ : Nat) (c : Ctr)
+    (hs : m.base ≤ start) (he : end_ ≤ m.base + m.bytes.size) :
+    ∃ r c', Api.rawFind b ns true m start end_ c = .ok r c' ∧
+      (r = none ↔ ∀ a, start ≤ a → a < end_ → ns.confirm (m.byteAt a) = false) ∧
+      (∀ a, r = some a → start ≤ a ∧ a < end_ ∧ ns.confirm (m.byteAt a) = true ∧
+        ∀ a', a < a' → a' < end_ → ns.confirm (m.byteAt a') = false) :=
+  Bridge2.rawFind_last_pointwise b ns m start end_ c hs he
+
+/-- For every backend, with NO hypothesis on the pointers, `rfind_raw` returns `none` when
+`start >= end`, taking no step and performing no load. -/
+theorem raw_none_when_start_ge_end (b : Api.Backend) (ns : Needles) (m : Mem) (start end_ : Nat)
+    (c : Ctr) (h : start ≥ end_) : Api.rawFind b ns true m start end_ c = .ok none c :=
+  Api.rawFind_reversed b ns true m start end_ c h
+
+/-- hypotheses are satisfiable: a 40-byte region at an odd base address, a 5-byte window -/
+example : ∃ (m : Mem) (start end_ : Nat), m.base ≤ start ∧ end_ ≤ m.base + m.bytes.size ∧
+    start < end_ :=
+  ⟨⟨0, 1001, Array.replicate 40 0⟩, 1003, 1008, by decide, by simp, by decide⟩
+
+/-! ### slice forms -/
+
+/-- Slice form `rfind(haystack)` of every backend's `One`/`Two`/`Three`: the largest index of the
+slice holding a needle byte, `none` iff there is none, for every valid slice. -/
+theorem slice_every_backend (b : Api.Backend) (ns : Needles) (hay : Slice) (hv : hay.Valid)
+    (c : Ctr) :
+    ∃ c', Api.sliceFind b ns true hay c = .ok (Spec.lastIdx ns.confirm hay.toList) c' :=
+  Bridge2.sliceFind_rev b ns hay hv c
+
+/-- `memrchr` / `memrchr2` / `memrchr3` under EVERY build / CPU configuration: the largest index
+of the haystack holding a needle byte, `none` iff there is none. -/
+theorem memrchr_last (cfg : Api.Cfg) (ns : Needles) (hay : Slice) (hv : hay.Valid) (c : Ctr) :
+    ∃ c', Api.memchr cfg ns true hay c = .ok (Spec.lastIdx ns.confirm hay.toList) c' :=
+  Bridge2.memchr_rev cfg ns hay hv c
+
+/-- an index produced by the specification (hence by every routine above) is inside the
+haystack -/
+theorem index_lt_len (ns : Needles) (hay : Slice) (i : Nat)
+    (h : Spec.lastIdx ns.confirm hay.toList = some i) : i < hay.len := by
+  simpa using Bridge2.lastIdx_lt h
+
+/-- `memrchr` & co. read pointwise (`hay.getD i` is byte `i` of the slice): the call returns
+normally with some `r` such that
+* `r = none` exactly when no index of the haystack holds a needle byte;
+* a returned index `i` is `< hay.len`, holds a needle byte, and no larger index does. -/
+theorem memrchr_pointwise (cfg : Api.Cfg) (ns : Needles) (hay : Slice) (hv : hay.Valid) (c : Ctr) :
+    ∃ r c', Api.memchr cfg ns true hay c = .ok r c' ∧
+      (r = none ↔ ∀ i, i < hay.len → ns.confirm (hay.getD i) = false) ∧
+      (∀ i, r = some i → i < hay.len ∧ ns.confirm (hay.getD i) = true ∧
+        ∀ j, i < j → j < hay.len → ns.confirm (hay.getD j) = false) :=
+  Bridge2.memchr_rev_pointwise cfg ns hay hv c
+
+/-- a valid, non-trivial slice: bytes 3..13 of a 40-byte region at an odd address -/
+example : (⟨⟨0, 1001, Array.replicate 40 0⟩, 3, 10⟩ : Slice).Valid := by
+  simp [Slice.Valid]
+
 end Memchr.Props.C02
 
+#print axioms Memchr.Props.C02.spec_some_iff
+#print axioms Memchr.Props.C02.spec_none_iff
 #print axioms Memchr.Props.C02.generic_rfind
 #print axioms Memchr.Props.C02.unroll_pos
 #print axioms Memchr.Props.C02.avx2_three
+#print axioms Memchr.Props.C02.sse2_rfind
+#print axioms Memchr.Props.C02.avx2_rfind
+#print axioms Memchr.Props.C02.neon_rfind
+#print axioms Memchr.Props.C02.simd128_rfind
+#print axioms Memchr.Props.C02.swar_one
+#print axioms Memchr.Props.C02.swar_multi
+#print axioms Memchr.Props.C02.swar_two
+#print axioms Memchr.Props.C02.swar_three
+#print axioms Memchr.Props.C02.raw_every_backend
+#print axioms Memchr.Props.C02.raw_pointwise
+#print axioms Memchr.Props.C02.raw_none_when_start_ge_end
+#print axioms Memchr.Props.C02.slice_every_backend
+#print axioms Memchr.Props.C02.memrchr_last
+#print axioms Memchr.Props.C02.index_lt_len
+#print axioms Memchr.Props.C02.memrchr_pointwise
